@@ -128,3 +128,145 @@ Proof.
   intros H. unfold reg_unmarshal. rewrite registry_unmarshal_correct. unfold registry_unmarshal_spec.
   apply Nat.ltb_lt in H. rewrite H. reflexivity.
 Qed.
+
+(** * Registry round trip *)
+Lemma pad_to_length n name : List.length (pad_to n name) = n.
+Proof.
+  unfold pad_to. rewrite firstn_length, app_length, repeat_length. lia.
+Qed.
+
+Lemma type_find_In t m name : type_find t m = Some name -> In (t, name) m.
+Proof.
+  induction m as [|[t' n'] m IH]; cbn; [discriminate|].
+  destruct (N.eqb t' t) eqn:E.
+  - intros H. inversion H; subst. apply N.eqb_eq in E. subst. left. reflexivity.
+  - intros H. right. apply IH, H.
+Qed.
+
+Lemma dec2b_true {P Q : Prop} (d : {P} + {Q}) : dec2b d = true -> P.
+Proof. destruct d; cbn; [auto|discriminate]. Qed.
+
+Lemma dec2b_refl {A} (dec : forall a b : A, {a = b} + {a <> b}) a : dec2b (dec a a) = true.
+Proof. destruct (dec a a); [reflexivity|contradiction]. Qed.
+
+Lemma apply_ctor_accepts c b :
+  ctor_accepts_b c b = true -> apply_ctor c b = Ok (Some (mk_pk (ctor_tid c) b)).
+Proof. destruct c; cbn; [reflexivity|]. intros ->. reflexivity. Qed.
+
+(** Unmarshal (Marshal k) = k for every registered key the constructor accepts. *)
+Lemma reg_roundtrip r k :
+  reg_wf_b r = true -> key_wf_b r k = true ->
+  exists b, reg_marshal r (Some k) = Ok b /\ reg_unmarshal r (Some b) = Ok (Some k).
+Proof.
+  intros Hr Hk. unfold key_wf_b in Hk.
+  destruct (type_find (pk_type k) (by_type r)) as [name|] eqn:Et; [|discriminate].
+  destruct (alist_find name (by_prefix r)) as [c|] eqn:Ec; [|discriminate].
+  apply andb_true_iff in Hk as [Htid Hacc]. apply N.eqb_eq in Htid.
+  unfold reg_wf_b in Hr. rewrite forallb_forall in Hr.
+  specialize (Hr _ (type_find_In _ _ _ Et)). cbn [fst snd] in Hr.
+  apply andb_true_iff in Hr as [Hr _]. apply andb_true_iff in Hr as [Hlen Htrim].
+  apply dec2b_true in Htrim.
+  exists (pad_to prefix_size name ++ pk_bytes k). split.
+  - unfold reg_marshal. rewrite Et. reflexivity.
+  - unfold reg_unmarshal. rewrite registry_unmarshal_correct. unfold registry_unmarshal_spec.
+    cbn [gb2s].
+    assert (Hl : List.length (pad_to prefix_size name) = prefix_size) by apply pad_to_length.
+    destruct (_ <? _)%nat eqn:E.
+    { apply Nat.ltb_lt in E. rewrite app_length in E. lia. }
+    rewrite firstn_app, Hl, Nat.sub_diag. cbn [firstn]. rewrite app_nil_r.
+    rewrite <- Hl at 1. rewrite firstn_all. rewrite Htrim, Ec. cbn [option_map].
+    rewrite skipn_app, Hl, Nat.sub_diag. cbn [skipn].
+    rewrite <- Hl at 1. rewrite skipn_all. cbn [app].
+    rewrite (apply_ctor_accepts _ _ Hacc). rewrite Htid. destruct k; reflexivity.
+Qed.
+
+(** * Validators and validator sets *)
+Lemma validators_rt r vs :
+  reg_wf_b r = true -> forallb (validator_wf_b r) vs = true ->
+  exists jvs, to_json_validators r vs = Ok jvs /\ to_validators r jvs = Ok (Some vs).
+Proof.
+  intros Hr. induction vs as [|v vs IH]; intros H.
+  - exists []. split; reflexivity.
+  - cbn [forallb] in H. apply andb_true_iff in H as [Hv Hvs].
+    destruct (IH Hvs) as [jvs [E1 E2]].
+    unfold validator_wf_b in Hv. destruct v as [[k|] p]; cbn [v_pub] in Hv; [|discriminate].
+    destruct (reg_roundtrip r k Hr Hv) as [b [Em Eu]].
+    exists (mk_jvalidator (Some b) p :: jvs). split.
+    + cbn [to_json_validators]. unfold to_json_validator. cbn [v_pub v_power].
+      rewrite Em. cbn [bind]. rewrite E1. reflexivity.
+    + cbn [to_validators]. unfold to_validator. cbn [jv_pub jv_power].
+      rewrite Eu. cbn [bindE]. rewrite E2. reflexivity.
+Qed.
+
+Definition rt_valset_of (vs : valset) : valset :=
+  mk_valset (Some (opt_list (vs_vals vs))) (Some (map v_pub (opt_list (vs_vals vs)))) (vs_pkh vs) (vs_vph vs).
+
+Lemma valset_rt r vs :
+  reg_wf_b r = true -> valset_wf_b r vs = true ->
+  exists j, to_json_valset r vs = Ok j /\ to_valset r j = Ok (Some (rt_valset_of vs)).
+Proof.
+  intros Hr H. unfold valset_wf_b in H. apply andb_true_iff in H as [Hv _].
+  destruct (validators_rt r _ Hr Hv) as [jvs [E1 E2]].
+  exists (mk_jvalset (Some jvs) (vs_pkh vs) (vs_vph vs)). split.
+  - unfold to_json_valset. rewrite E1. reflexivity.
+  - unfold to_valset. cbn [jvs_vals opt_list jvs_pkh jvs_vph]. rewrite E2. reflexivity.
+Qed.
+
+(** * Proof maps *)
+Lemma existsb_eqb_In k ks : existsb (bytes_eqb k) ks = true <-> In k ks.
+Proof.
+  rewrite existsb_exists. split.
+  - intros [x [Hin E]]. apply bytes_eqb_eq in E. subst. exact Hin.
+  - intros H. exists k. split; [exact H|apply bytes_eqb_refl].
+Qed.
+
+Lemma nodup_keys_NoDup l : nodup_keys_b l = true <-> NoDup (map fst l).
+Proof.
+  induction l as [|kv l IH]; cbn [nodup_keys_b map].
+  - split; [constructor|reflexivity].
+  - rewrite andb_true_iff, negb_true_iff, IH. split.
+    + intros [H1 H2]. constructor; [|exact H2]. intros Hin. apply existsb_eqb_In in Hin. congruence.
+    + intros H. inversion H; subst. split; [|assumption].
+      destruct (existsb _ _) eqn:E; [|reflexivity]. apply existsb_eqb_In in E. contradiction.
+Qed.
+
+Lemma alist_set_fresh {V} (m : list (list N * V)) k v :
+  ~ In k (map fst m) -> alist_set m k v = m ++ [(k, v)].
+Proof.
+  induction m as [|[k' v'] m IH]; cbn [alist_set map fst In app]; intros H; [reflexivity|].
+  destruct (bytes_eqb k' k) eqn:E.
+  - apply bytes_eqb_eq in E. exfalso. apply H. left. exact E.
+  - f_equal. apply IH. intros Hin. apply H. right. exact Hin.
+Qed.
+
+Definition mk_entry (kv : list N * gsigs) : jentry := mk_jentry (Some (fst kv)) (snd kv).
+
+Lemma build_map_acc l : forall acc,
+  NoDup (map fst (acc ++ l)) ->
+  fold_left (fun m e => alist_set m (je_key e) (je_sigs e)) (map mk_entry l) acc = acc ++ l.
+Proof.
+  induction l as [|[k v] l IH]; intros acc H; cbn [map fold_left].
+  - rewrite app_nil_r. reflexivity.
+  - unfold mk_entry at 1. cbn [je_key je_hash je_sigs gb2s fst snd].
+    rewrite alist_set_fresh.
+    + rewrite IH; rewrite <- app_assoc; cbn [app]; [reflexivity|exact H].
+    + rewrite map_app in H. cbn [map fst] in H. apply NoDup_remove_2 in H.
+      intros Hin. apply H. apply in_or_app. left. exact Hin.
+Qed.
+
+(** Decoding the entries of a Go map (unique keys, any iteration order) rebuilds that map. *)
+Lemma build_map_entries m : pmap_wf_b m = true -> build_map (entries_of m) = pm_list m.
+Proof.
+  intros H. apply nodup_keys_NoDup in H. unfold build_map, entries_of.
+  change (fun kv : list N * gsigs => mk_jentry (Some (fst kv)) (snd kv)) with mk_entry.
+  rewrite (build_map_acc (pm_list m) []); [reflexivity|exact H].
+Qed.
+
+Lemma commit_proof_rt p :
+  pmap_wf_b (cp_proofs p) = true ->
+  to_commit_proof (to_json_commit_proof p) =
+  mk_commit_proof (cp_round p) (cp_pkh p) (Some (pm_list (cp_proofs p))).
+Proof.
+  intros H. unfold to_commit_proof, to_json_commit_proof.
+  cbn [jcp_round jcp_pkh jcp_commits gb2s opt_list]. rewrite (build_map_entries _ H). reflexivity.
+Qed.
